@@ -121,7 +121,9 @@ class Listeners:
 
         try:
             expression = parse_boolean_expr(spec.func, take_callback_partial, operator_mapping)
-        except SyntaxError as err:
+        except (SyntaxError, ValueError, KeyError) as err:
+            # SyntaxError: not parseable; ValueError/KeyError: parseable but uses a structure or
+            # operator that boolean expressions do not support
             raise InvalidDefinition(
                 _("Failed to parse boolean expression '{}'").format(spec.func)
             ) from err
